@@ -374,6 +374,7 @@ def run_check(pid, module, argv):
     if not ok:
         proof_problems.append({"kind": "proof", "what": f"lake build Puan.Props.{pid} driver failed", "lean": out[-3000:]})
     theorems, n_examples, axioms = [], 0, {}
+    leanchecker = "not run (quick tier)"
     if ok:
         axioms, missing, n_examples, aout = lean_audit(pid)
         theorems = list(axioms.keys())
@@ -385,6 +386,16 @@ def run_check(pid, module, argv):
                 proof_problems.append({"kind": "proof", "what": f"theorem {n} depends on axioms {bad}"})
         for h in lean_grep_forbidden():
             proof_problems.append({"kind": "proof", "what": f"forbidden token: {h}"})
+        if a.tier == "thorough":
+            # independent re-check of the compiled module (and everything it imports) by the toolchain's leanchecker
+            lk = _lock()
+            try:
+                lc = subprocess.run(["lake", "env", "leanchecker", f"Puan.Props.{pid}"], cwd=LEAN, capture_output=True, text=True, timeout=1800)
+            finally:
+                lk.close()
+            leanchecker = "ok" if lc.returncode == 0 else "rejected"
+            if lc.returncode != 0:
+                proof_problems.append({"kind": "proof", "what": f"leanchecker rejected Puan.Props.{pid}", "lean": (lc.stdout + lc.stderr)[-2000:]})
     obligations = len(prop_theorems(pid)[0]) + prop_theorems(pid)[1]
     discharged = 0 if proof_problems else obligations
 
@@ -496,6 +507,7 @@ def run_check(pid, module, argv):
         "checker_cmd": f"cd lean && lake build Puan.Props.{pid} && lake env lean <#print axioms of every theorem in Puan/Props/{pid}.lean>",
         "trusted_base": TRUSTED_BASE + getattr(module, "TRUSTED", []),
         "theorems": {n: axioms.get(n, []) for n in theorems},
+        "leanchecker": leanchecker,
         "examples_nonvacuity": n_examples,
         "evaluations": ctx.evaluations, "distinct_nontrivial": len(ctx.distinct),
         "rule": getattr(module, "RULE", ""),
